@@ -60,6 +60,7 @@ func main() {
 		*tier = t
 	}
 	checks.InstrReport = *report
+	checks.LoadMined()
 
 	if *replay != "" {
 		os.Exit(doReplay(*replay, *known, *replays))
